@@ -13,6 +13,28 @@ CHECKS = {
    technique="Lean 4 inductive invariant + quiescent-step differential correspondence", design="§6 C11"),
 }
 
+CHECKS.update({
+ "C16": dict(
+   text="Lean model Rie.Env of lambda/rapidcore/env (six layers, all exported mutators, both credential modes, KEY=VALUE cut) over key sets regenerated from the built code on every run; theorems for all process environments, all mutator sequences and all customer maps: precedence, reserved values win, unshadowed variables unchanged, split at first '=', extension view filter, same API address. Tied by three differential runs: real env.Environment methods, SplitEnvironmentVariable/strings.SplitN, and the real aws-lambda-rie binary with real child processes dumping their environment.",
+   note=TB + " 'the address the API server really listens on' is tested (e2e), not proved; keys with '=' or NUL are map-level only; port 0 not exercised; the isInternalEnvVar exemption list is hand-written in the model (differentially covered).",
+   technique="Lean 4 proof + regenerated key-set obligations (decide) + differential correspondence (unit, split, e2e binary)", design="§6 C16"),
+ "C17": dict(
+   text="Lean models of ReceiveDirectInvoke (header parsing with package-level variables), the payload copy/classification and the token bucket; theorems for all globals/requests (history independence), all payloads and chunkings (forward exact, classification), all tick/write schedules (rate bound, progress). Constants regenerated from the built code. Tied by differential runs of the real functions (request sequences, copy with injected read errors, bucket with virtual ticks) plus one-sided wall-clock observations.",
+   note=TB + " Overlapping direct invokes are out of scope (unsynchronised package variables). Real-time rate is runtime truth: the bound is proved against tick counts and observed one-sidedly. The reservation-deadline boundary is not driven.",
+   technique="Lean 4 proof + regenerated constants + differential correspondence with virtual ticks", design="§6 C17"),
+ "C19": dict(
+   text="Lean model of the local supervisor's bookkeeping (process table, name map, events, Kill/Terminate return classes) with theorems over arbitrary op sequences: exactly one event per exited process carrying its exit status, Kill post-conditions, Terminate changes nothing. Tied by a differential run on the real LocalSupervisor with real /bin/sh children and a model-free ground-truth oracle (/proc, pid markers, process-group scans), sequential and racing cases.",
+   note=TB + " The proof covers the bookkeeping; OS semantics (signal delivery, reaping, process groups, wait status) are sampled by supdrv, not proved. Stop() is not modelled.",
+   technique="Lean 4 inductive invariant + differential run on real processes with ground-truth oracle", design="§6 C19"),
+})
+
+CHECKS.update({
+ "C20": dict(
+   text="Lean theorems over all byte strings (error type: closed under sanitize, identity exactly on the allowed form, fallbacks), all parsed causes x all encoders within the 6x escape hypothesis (64 KiB bound, fields are prefixes/crops, dropped iff no recognised field), all request sequences (runtime release bound and fixedness); constants and the regexp literal regenerated from the built code with side conditions by decide; seeded differential run on the real functions and the real HTTP error handlers, every case also judged model-free.",
+   note=TB + " JSON parsing, layout and escaping (<=6x per byte, checked on every generated string), Go regexp for the regenerated pattern, strings.Fields on non-ASCII input are trusted; 'bodies pass through untouched' is checked on the real handlers only.",
+   technique="Lean 4 proof + regenerated constants (decide) + differential correspondence + model-free oracle", design="§6 C20"),
+})
+
 NA_REASON = {}
 
 def main():
